@@ -99,6 +99,8 @@ def stress_items(tier, rnd):
     for d in range(0, 8):
         for style in ("stop", "exit", "return"):
             items.append(("stress-leave:%d:%s" % (d, style), leave_prog(d, style), b"", {}))
+    # calls that store through an array parameter while other actuals need several temporaries
+    items += [(tag, prog, b"", {}) for tag, prog in xgen.argclobber_matrix(rnd, tier)]
     return items
 
 
